@@ -180,8 +180,8 @@ func comparePreRelease(pr1, pr2 []string) int {
 // comparePreReleaseIdentifier compares individual pre-release identifiers
 func comparePreReleaseIdentifier(id1, id2 string) int {
 	// Try to parse as integers first
-	num1, err1 := strconv.Atoi(id1)
-	num2, err2 := strconv.Atoi(id2)
+	num1, err1 := parseNumericIdentifier(id1)
+	num2, err2 := parseNumericIdentifier(id2)
 
 	if err1 == nil && err2 == nil {
 		// Both are numbers, compare numerically
@@ -204,6 +204,17 @@ func comparePreReleaseIdentifier(id1, id2 string) int {
 		return 1
 	}
 	return 0
+}
+
+// parseNumericIdentifier parses an identifier that consists of digits only;
+// anything else ("-5", "1a") is alphanumeric.
+func parseNumericIdentifier(id string) (int, error) {
+	for _, r := range id {
+		if r < '0' || r > '9' {
+			return 0, fmt.Errorf("not a numeric identifier: %s", id)
+		}
+	}
+	return strconv.Atoi(id)
 }
 
 func compareInt(a, b int) int {
